@@ -204,8 +204,9 @@ def run(chk, repo, tier):
     # tilts a field carries are folded one after the other, each fed the displacement accumulated so far
     from .c10 import plane_copy_rules as _plane_copy_rules
     _plane_copy_rules(chk, repo, 'C03-p')
-    from .c04 import folding as _folding
+    from .c04 import folding as _folding, additive as _additive3
     _folding(_common.Remap(chk, {'C04-d': 'C03-p'}), repo, 'C04-d')
+    _additive3(chk, repo, 'C03-p')
     from .prop_flow import own_storage_rule
     own_storage_rule(chk, repo, 'C03-p')
     # segments stay mutually coherent through a tilt fit: only tip and tilt leave a segment's OPD, never its piston
@@ -221,6 +222,10 @@ def run(chk, repo, tier):
     from .c04 import basis_rule as _basis_rule
     with chk.guard(['C03-p'], 'plane.Plane.ptt_vector'):
         _basis_rule(_common.Remap(chk, {'C04-i': 'C03-p'}), repo, 'C04-i')
+    # the segment masks lentil itself makes partition the aperture: no sample belongs to two segments
+    from .c20 import non_overlap_rule as _non_overlap_rule
+    with chk.guard(['C03-p'], 'segmented.hex_segments'):
+        _non_overlap_rule(chk, repo, 'C03-p')
     from .prop_flow import skip_rule as _skip_rule
     _skip_rule(chk, repo, 'C03-p')
     from .prop_flow import per_field_shift_rule as _pfs_rule
